@@ -324,7 +324,10 @@ if not MISSING:
     H._xn_active_in_call = act
 
     def execute(self, results, profiles):
-        ctl = getattr(results, "_verif_ctl", None) or CUR[0]
+        # only executions started under a controller carry its tag (ae wraps the results dict); a late worker of
+        # an UNINSTRUMENTED call (e.g. gathered awaits run without controller, one of which raised) must not be
+        # attributed to whatever controlled run happens to be current
+        ctl = getattr(results, "_verif_ctl", None)
         if ctl is None:
             return orig_execute(self, results, profiles)
         TL.ctl = ctl
